@@ -507,7 +507,13 @@ func main() {
 	genDC := flag.String("gen-deepcopy", "", "write the generated DeepCopy harness to this file and exit")
 	genList := flag.String("gen-list", "", "write the list of generated entries to this file")
 	genUn := flag.String("gen-unions", "", "write the generated union-dispatch harness to this file and exit")
+	genEq := flag.String("gen-equals", "", "write generated Equals harness files into this directory and exit")
+	modPath := flag.String("modpath", "verifgen", "module path of the generated code")
 	flag.Parse()
+	if *genEq != "" {
+		genEquals(*dir, strings.Split(*pkgPat, ","), *genEq, *genList, *modPath)
+		return
+	}
 	if *genUn != "" {
 		genUnions(*dir, strings.Split(*pkgPat, ","), *genUn, *genList)
 		return
